@@ -168,6 +168,17 @@ def build_pool(seed):
         grp.append({"op": "de", "method": m, "account": "123"})
         grp.append({"op": "de", "method": m, "account": accts[0], "how": "compute"})
         groups.append(grp)
+        # accounts whose weighted sum degenerates (one non-zero digit at each of the ten places, and none at all), each right
+        # after an account at an edge remainder: a shortcut for "nothing to sum" must leave no state of the previous call behind
+        grp = []
+        for a in accts[:len(accts) // 3]:
+            for k in range(10):
+                sparse = "0" * k + rng.choice("123456789") + "0" * (9 - k)
+                grp.append({"op": "de", "method": m, "account": a})
+                grp.append({"op": "de", "method": m, "account": sparse})
+            grp.append({"op": "de", "method": m, "account": a})
+            grp.append({"op": "de", "method": m, "account": "0000000000"})
+        groups.append(grp)
     # the same account number under every method (shuffled): one method's work on these digits is no other method's business
     from ..oracles import de as ode_
     for gi in range(12):
